@@ -30,7 +30,8 @@ class InvariantBroken(Exception):
 
 
 def _imports():
-    global ByteVec, Chunk, ConcreteChunk, SymbolicChunk, BV, State
+    global ByteVec, Chunk, ConcreteChunk, SymbolicChunk, BV, State, Contract
+    from halmos.contract import Contract
     from halmos.bitvec import HalmosBitVec as BV
     from halmos.bytevec import ByteVec, Chunk, ConcreteChunk, SymbolicChunk
     from halmos.sevm import State
@@ -595,6 +596,61 @@ def run_random(seed, length, res):
 
 
 # ---------------------------------------------------------------------------- probes
+def run_code(seed, res):
+    """code as a byte sequence: every read API of Contract (slice, unwrapped_slice, byte) on codes that are concrete, concrete
+    prefix + symbolic chunks, or symbolic from the start, against the flat zero-extended model, on a grid around the chunk
+    boundaries and the end of the code"""
+    rng = random.Random(seed)
+    ctx = Ctx(rng)
+    shape = rng.choice(["concrete", "prefix+sym", "prefix+sym+bytes", "sym-first", "empty", "bytes-object"])
+    parts = []
+    if shape == "concrete":
+        parts = [("bytes", rng.choice([1, 2, 5, 31, 32, 33, 40, 70]))]
+    elif shape == "prefix+sym":
+        parts = [("bytes", rng.choice([1, 3, 32, 37])), ("sym", rng.choice([1, 4, 32]))]
+    elif shape == "prefix+sym+bytes":
+        parts = [("bytes", rng.choice([1, 6, 32, 45])), ("sym", rng.choice([1, 32, 33])), ("bytes", rng.choice([1, 2, 32])), ("sym", rng.choice([2, 20]))]
+    elif shape == "sym-first":
+        parts = [("sym", rng.choice([1, 32, 35])), ("bytes", rng.choice([1, 8, 32]))]
+    elif shape == "bytes-object":
+        parts = [("bytes", rng.choice([1, 7, 32, 64, 65]))]
+    cells, bounds, pos = [], {0}, 0
+    if shape == "bytes-object":
+        v, c = mk_value(ctx, "bytes", parts[0][1])
+        code = v
+        cells = c
+        bounds.add(len(c))
+    else:
+        code = ByteVec()
+        for kind, k in parts:
+            v, c = mk_value(ctx, kind, k)
+            code.append(v)
+            cells += c
+            pos += k
+            bounds.add(pos)
+    m = Flat(cells)
+    con = Contract(code)
+    n = len(cells)
+    if len(con) != n:
+        raise Mismatch("len(Contract)", got=len(con), want=n, shape=shape)
+    offs = sorted({o for b in bounds for o in (b - 2, b - 1, b, b + 1, b + 2) if o >= 0} | {n + 40, n + 5000})
+    sizes = sorted({0, 1, 2, 3, 31, 32, 33, n, n + 1} | {b for b in bounds})
+    for a in offs:
+        res["counters"]["reads"] += 1
+        res["counters"]["code_reads"] += 1
+        compare(ctx, con[a], m.read(a, 1), "Contract.__getitem__", off=a, nbytes=1, shape=shape, parts=parts)
+        for k in sizes:
+            res["counters"]["code_reads"] += 1
+            sl = con.slice(a, k)
+            if len(sl) != k:
+                raise Mismatch("Contract.slice length", start=a, size=k, got=len(sl), shape=shape, parts=parts)
+            if k:
+                compare(ctx, sl, m.read(a, k), "Contract.slice", start=a, size=k, shape=shape, parts=parts)
+                compare(ctx, con.unwrapped_slice(a, a + k), m.read(a, k), "Contract.unwrapped_slice", start=a, stop=a + k, shape=shape, parts=parts)
+    res["distinct"].append(f"code:{shape}:{[k for _, k in parts]}")
+    return None
+
+
 def probe_alias_nested():
     """aligned set_slice with a ByteVec value must not alias the source vector"""
     a = ByteVec()
@@ -641,6 +697,13 @@ def worker(task):
                 res["violations"].append(v)
             res["distinct"].append(f"r:{idx}")
         res["samples"].append({"kind": "random-history", "seed": seed * 7919 + lo, "length": length})
+    elif kind == "code":
+        _, lo, hi, seed = task
+        for idx in range(lo, hi):
+            try:
+                run_code(seed * 104729 + idx, res)
+            except Mismatch as e:
+                res["violations"].append({"what": f"code read differs from the flat zero-extended model: {e.what}", "witness": {"code": True, "seed": seed * 104729 + idx, **{k: (v if isinstance(v, (int, str)) else repr(v)) for k, v in e.kw.items()}}})
     res["counters"]["invariant_evaluations"] += INV["evals"] - e0
     res["counters"]["icontract_invariant_evaluations"] += INV["icontract_evals"] - i0
     return res
@@ -657,7 +720,13 @@ def main():
     if run.replay:
         w = json.load(open(run.replay))["witness"]
         res = new_result()
-        if w.get("random"):
+        if w.get("code"):
+            v = None
+            try:
+                run_code(w["seed"], res)
+            except Mismatch as e:
+                v = {"what": f"code read differs from the flat zero-extended model: {e.what}", "witness": w}
+        elif w.get("random"):
             v = run_random(w["seed"], w["length"], res)
         else:
             ops = [tuple(o) for o in w["ops"]]
@@ -690,6 +759,8 @@ def main():
             tasks.append(("enum", False, 3, lo, lo + 300, run.seed))
         nr, length = run.n(480, 0), 40
     tasks += [("random", lo, min(nr, lo + 40), run.seed, length) for lo in range(0, nr, 40)]
+    ncode = run.n(240, 4000)
+    tasks += [("code", lo, min(ncode, lo + 40), run.seed) for lo in range(0, ncode, 40)]
     random.Random(run.seed).shuffle(tasks)
     run_pool(run, worker, tasks, soft_timeout=900)
     run.exhaustive = False
@@ -697,6 +768,7 @@ def main():
     run.require("operations", 5000)
     run.require("reads", 50000)
     run.require("copy_rechecks", 500)
+    run.require("code_reads", 5000)
     run.require("invariant_evaluations", 5000)
     if has_ic:
         run.require("icontract_invariant_evaluations", 5000)
